@@ -70,7 +70,10 @@ var civilCtor = ev.Register(&ev.P[civCase]{
 		// the time.Time forms: when the standard library holds exactly these fields (its calendar is proleptic
 		// Gregorian, so only tuples it does not normalise qualify), the constructors take them over unchanged
 		if got && c.Y >= 1 {
-			tm := time.Date(c.Y, time.Month(c.M), c.D, c.H, c.Mi, c.S, 0, time.UTC)
+			// any sub-second part and any location: the constructors take the time's own calendar fields
+			ns := []int{0, 1, 499999999, 500000000, 999999999, 600000000}[ref.Mod(c.D+c.S+c.Mi, 6)]
+			loc := []*time.Location{time.UTC, time.Local, time.FixedZone("E8", 8*3600), time.FixedZone("W330", -12600)}[ref.Mod(c.D+c.H, 4)]
+			tm := time.Date(c.Y, time.Month(c.M), c.D, c.H, c.Mi, c.S, ns, loc)
 			if tm.Year() == c.Y && int(tm.Month()) == c.M && tm.Day() == c.D && tm.Hour() == c.H && tm.Minute() == c.Mi && tm.Second() == c.S {
 				var sd *calendar.Solar
 				var ld *calendar.Lunar
